@@ -1,5 +1,6 @@
 pub mod addfar;
 pub mod cells;
+pub mod geom;
 pub mod iloc;
 pub mod insphere;
 pub mod routes;
